@@ -54,14 +54,22 @@ HasInsideAncestor(recs, i, rg) ==
   \E j \in 1..(i - 1) : ProperPrefix(recs[j].path, recs[i].path) /\ InRange(recs[j], rg) # "outside"
 
 (* ---- verdicts ---- *)
-IgnoreFails(recs) ==
+(* an ignored statement is reproduced byte for byte at the corresponding position; this clause also holds *)
+(* while requires are being sorted: a group holding an ignored statement is left alone, and sorting the    *)
+(* other groups moves no statement across an ignored one                                                   *)
+IgnoredVerbatimFails(recs) ==
   UNION { (IF TopIgnored(recs, i) /\ ~(recs[i].found /\ Has(recs[i], "same_text") /\ recs[i].same_text)
            THEN {[p |-> "C08", w |-> IF ~recs[i].found THEN "ignored_lost"
                                      ELSE IF recs[i].same_text_nosemi THEN "ignored_semicolon" ELSE "ignored_changed",
-                  i |-> i]} ELSE {}) \cup
-          (IF ~Ignored(recs, i) /\ ~HasIgnoredDescendant(recs, i) /\ Has(recs[i], "same_as_neutral") /\ ~recs[i].same_as_neutral
+                  i |-> i]} ELSE {})
+        : i \in DOMAIN recs }
+(* ... and everything else is formatted as it would be without the directive (compared by position, so *)
+(* only judged with require sorting off: a directive legitimately changes which groups are sorted)     *)
+ElsewhereFails(recs) ==
+  UNION { (IF ~Ignored(recs, i) /\ ~HasIgnoredDescendant(recs, i) /\ Has(recs[i], "same_as_neutral") /\ ~recs[i].same_as_neutral
            THEN {[p |-> "C08", w |-> "not_formatted_elsewhere", i |-> i]} ELSE {})
         : i \in DOMAIN recs }
+IgnoreFails(recs) == IgnoredVerbatimFails(recs) \cup ElsewhereFails(recs)
 
 RangeFails(recs, rg, affix, identity) ==
   LET stmtIdx == {i \in DOMAIN recs : recs[i].kind # "field"}
@@ -76,7 +84,10 @@ RangeFails(recs, rg, affix, identity) ==
               /\ Has(recs[i], "same_as_whole") /\ ~recs[i].same_as_whole
            THEN {[p |-> "C09", w |-> "inside_differs_from_whole_file", i |-> i]} ELSE {})
         : i \in stmtIdx } \cup
-  (IF cand = {} THEN (IF identity THEN {} ELSE {[p |-> "C09", w |-> "nothing_in_range_but_changed", i |-> 0]})
+  \* no statement in the range: nothing changes, except that an end-of-file token lying in the range has
+  \* its own leading comments / blank lines formatted
+  (IF cand = {} THEN (IF identity \/ (Has(rg, "eof_in") /\ rg.eof_in /\ rg.body_same) THEN {}
+                      ELSE {[p |-> "C09", w |-> "nothing_in_range_but_changed", i |-> 0]})
    ELSE LET first == CHOOSE i \in cand : \A j \in cand : i <= j
             last  == CHOOSE i \in cand : \A j \in cand : j <= i \/ ProperPrefix(recs[i].path, recs[j].path)
             aff(i) == CHOOSE a \in {affix[k] : k \in DOMAIN affix} : a.path = recs[i].path
